@@ -314,7 +314,7 @@ C13_NonTrivial(c, r, v) == c.n >= 4 /\ \E i \in 1..c.n : Cardinality({k \in DOMA
 BudgetMs(c) == LET sz == c.n + Len(c.edges) IN
                IF c.p4 = "nspos"
                THEN (IF sz <= 300 THEN 2000 + ((sz * sz) \div 200) * sz * sz ELSE 2000000000)
-               ELSE 2000 + ((sz * sz) \div 100) * sz
+               ELSE (IF sz <= 1200 THEN 2000 + ((sz * sz) \div 100) * sz ELSE 2000000000)     \* bounded: TLC integers are 32 bit
 C01_Applies(c, r, v) == TRUE
 C01_Fail(c, r, v) == If(r.us \div 1000 <= BudgetMs(c), "TimeBudget")
 C01_NonTrivial(c, r, v) == c.n >= 2 /\ NonLoopIdx(c.edges) # {}
